@@ -40,8 +40,8 @@ func (e *Exec) newThread() *thread {
 
 // spawn implements `go fn(args...)`.
 func (e *Exec) spawn(fr *frame, fn Value, args []Value) {
-	if len(e.threads) >= 24 {
-		e.end("unwound", "more than 24 goroutines")
+	if len(e.threads) >= 96 {
+		e.end("unwound", "more than 96 goroutines")
 	}
 	t := e.newThread()
 	e.wg.Add(1)
